@@ -14,7 +14,7 @@ from . import pipeline as P
 from .pipeline import ToolError, VERIF, REPO
 
 AUX = re.compile(r"loop invariant|Check decreases clause|Check invariant|Check that .* is assignable|Check that .* is valid|"
-                 r"is side-effect free|unwinding assertion|decreases clause|variant|tjv aux:|recursion unwinding|Check step was unwound", re.I)
+                 r"is side-effect free|unwinding assertion|decreases clause|variant|tjv aux:|recursion unwinding|Check step was unwound|no body for callee|loop instrumentation was not truncated", re.I)
 SAFETY = re.compile(r"^(dereference failure|pointer |array |arithmetic overflow|shift |division by zero|memcpy |memset |"
                     r"same object violation|pointer relation|pointer arithmetic|NaN|free |double free|"
                     r"free argument|free called|max allocation|precondition_instance|.*dynamically allocated|.*dereferenced function pointer|"
@@ -128,7 +128,21 @@ def run_job(job, root, pid_prop):
             d2 = os.path.join(d, "reach")
             os.makedirs(d2, exist_ok=True)
             gb2, _ = P.build(j2, d2)
-            v2 = P.verify(j2, gb2, d2, extra=[], tag="reach")
+            # only the reachability assertions are checked in the twin (the other obligations were decided above)
+            rc_, out_, _ = P.run(["cbmc", gb2] + P.cbmc_flags(j2) + ["--show-properties"], d2, 300, mem_gb=j2.get("mem_gb", 12))
+            rnames = []
+            cur_name = None
+            for l in out_.split("\n"):
+                m = re.match(r"^Property (\S+):", l.strip())
+                if m:
+                    cur_name = m.group(1)
+                elif cur_name and "TJV_REACH" in l:
+                    rnames.append(cur_name)
+                    cur_name = None
+            extra = []
+            for rn in rnames:
+                extra += ["--property", rn]
+            v2 = P.verify(j2, gb2, d2, extra=extra, tag="reach")
             rs = [r for r in v2["results"] if r["desc"].startswith("TJV_REACH")]
             if not rs:
                 raise ToolError("job %s: reachability twin generated no TJV_REACH assertion" % job["name"])
